@@ -16,6 +16,7 @@ mkdir -p "$OUT"
 rm -f "$OUT"/*.json
 EXTRA=""
 if [ "$MODE" = "all" ]; then EXTRA="--all-targets"; fi
+if [ "$MODE" = "release" ]; then EXTRA="--release"; fi
 cd "$REPO"
 LD_LIBRARY_PATH="$SYSROOT/lib" \
 RUSTFLAGS="-Zmir-opt-level=0 -Zalways-encode-mir -Awarnings" \
